@@ -15,6 +15,7 @@ import ScalesModel.Adapter.Heap
 import ScalesModel.Adapter.FrontEnd
 import ScalesModel.Adapter.E2E
 import ScalesModel.Adapter.TagPool
+import ScalesModel.Adapter.Shared
 open Scales
 
 def components : List Comp := [
@@ -25,7 +26,10 @@ def components : List Comp := [
   ⟨"e2e1", (Scales.E2E.comp 1).run⟩,
   ⟨"e2e2", (Scales.E2E.comp 2).run⟩,
   ⟨"e2e12", (Scales.E2E.comp 12).run⟩,
-  ⟨"tagpool", Scales.TagPool.comp.run⟩
+  ⟨"tagpool", Scales.TagPool.comp.run⟩,
+  ⟨"singleton", Scales.Shared.singleton.run⟩,
+  ⟨"refcount", Scales.Shared.refcount.run⟩,
+  ⟨"sharedprov", Scales.Shared.sharedprov.run⟩
 ]
 
 structure CaseAcc where
